@@ -25,6 +25,10 @@ def run(ctx: core.Ctx) -> None:
     budget = 320 if quick else 6000
     chosen = accepted[:budget]
     chosen += [r for r in sc.emit_layer(ctx, 'fortran_pow') if r['reject'] == 'none']
+    pow3 = [r for r in sc.emit_layer(ctx, 'fortran_pow3')
+            if r['reject'] == 'none' and {'**', '/'} <= {tk['s'] for tk in r['stmts'][0]['rhs'] if tk['t'] == 'bin'}]
+    rng.shuffle(pow3)
+    chosen += pow3[: (400 if quick else 2000)]
     sim = [r for r in sc.simulate_layer(ctx, 'fortran_sim', 400 if quick else 6000) if r['reject'] == 'none']
     chosen += sim[: (80 if quick else 1500)]
     progs = sc.compose_long([r for r in accepted[:400]], ctx.seed, 40 if quick else 600)
